@@ -30,11 +30,11 @@ pub fn c10_handlers() {
     poke(&n.dbs, "d", "$conflicts_x_1", &String::from("resolved y"), 1, ValueStatus::Ok, 0, 0);
     poke(&n.dbs, "d", "$conflicts_x_2", &String::from("resolve 2 d 1 x a b"), 1, ValueStatus::Ok, 0, 0);
     let (mut probe, mut prx) = db_client(&n.dbs, "d");
-    let sess = vsym::choice("session", 3);
+    let sess = vsym::choice("session", 4);     // 0 nothing, 1 admin + database, 2 database token, 3 admin without a selected database
     vsym::tag_i("session", sess as i64);
     let (mut c, mut rx) = new_client();
-    if sess == 1 { process_request("auth user pwd", &n.dbs, &mut c); }
-    if sess >= 1 { process_request("use-db d tok", &n.dbs, &mut c); }
+    if sess == 1 || sess == 3 { process_request("auth user pwd", &n.dbs, &mut c); }
+    if sess == 1 || sess == 2 { process_request("use-db d tok", &n.dbs, &mut c); }
     let mut words = Request::command_list();
     words.sort();
     let w = vsym::choice("word", words.len());
@@ -55,7 +55,7 @@ pub fn c10_handlers() {
     let r1 = process_request("set p p1", &n.dbs, &mut probe);
     let r2 = process_request("get p", &n.dbs, &mut probe);
     // (an administrator may legitimately change what other clients can do; for the other sessions the probe must succeed)
-    if sess != 1 {
+    if sess != 1 && sess != 3 {
         vsym::check("probe.set-answered", is_ok(&r1));
         match r2 { Response::Value { key: _, value, version: _ } => vsym::check("probe.get-value", value == "p1"), _ => vsym::check("probe.get-answered", false) }
     }
